@@ -165,7 +165,7 @@ def build(key, variant, i):
     raise KeyError(qual)
 
 
-def build_gms(variant, i, mode, rep, ref, env):
+def build_gms(variant, i, mode, rep, ref, env, msi=None, setup=None):
     """MediaRequestBase.generate_media_segment extracted from the source text and run with stand-ins for what the
     contract treats as abstract (fragment loading / encoding, AdaptationSet, DashTiming construction, Flask)."""
     import io
@@ -179,7 +179,8 @@ def build_gms(variant, i, mode, rep, ref, env):
     tim = geti('seg_time') if kind == 'time' else None
     TF = lambda k: 1000 + 7 * k * k            # an arbitrary stored decode time per fragment
     state = {}
-    msi = extract_method('dashlive/server/requesthandler/media_requests.py', 'LiveMedia', 'calculate_media_segment_index')
+    if msi is None:
+        msi = extract_method('dashlive/server/requesthandler/media_requests.py', 'LiveMedia', 'calculate_media_segment_index')
 
     class Atom(NS):
         def encode(self, dest):
@@ -213,6 +214,8 @@ def build_gms(variant, i, mode, rep, ref, env):
 
     def call():
         with app.test_request_context('/x'):
+            if setup:
+                setup()
             r = fn(me, NS(timing_reference=ref), media_file, mode, options, num, tim)
         return NS(status=r.status_code, data=state.get('encoded'))
 
